@@ -19,7 +19,7 @@ func init() {
 
 const explanationC02 = "Decides structural necessary conditions of C02 (request side): (R02.1) the attribute-name⇄wire-name tables of a mapped attribute stay inverse of each other — every store into one is paired with the swapped store into the other, copies copy both, deletes delete from both, and each lookup direction reads its own table; (R02.2) the request body is the payload minus everything mapped elsewhere — headers, cookies, params, the map-query attribute and the implicit header attributes all reach removeAttribute(s) on the body; (R02.3) the string⇄typed conversion templates use the strconv family, bit size and cast of each primitive type; (R02.4) every transport accessor in the request/response templates is keyed by the element's wire-name field (HTTPName, or CanonicalName for headers; direct indexing of a header map only by CanonicalName) on the writing and on the reading side, never by the attribute or variable name; raw values are tested for presence on the raw variable they were read into; (R02.5) path values are unescaped exactly once (shared with C16/R16.2) and request decoding picks the codec of the announced type (shared with C15/R15.1); (R02.6) template range bodies use their element; required flags are propagated under the key they are looked up with; (R02.7) the request encoder guards a field only against nil, never against a zero value; (R02.8) loops over References apply Inherit and loops over Bases apply Merge in every implementation. NOT decided: equality of the payload received with the payload sent for any design (needs execution of generated code), default injection, escaping of query values."
 
-const explanationC03 = "Decides structural necessary conditions of C03 (response side): (R03.1) in the response encoder template each response arm writes the status code of its own range element after its headers and before the body, tagged arms compare the tag field with that element's tag value, and the client decoder's case labels come from the same field; the DSL gives a response its default status before the response DSL runs so that an explicit Code() is kept; (R03.2) errors captured by the attribute walkers of the transform generators are tested after each walk; (R03.3) the status vocabulary — every expr.Status* constant has the value of the like-named net/http constant; (R03.4) the response body is the result minus headers and cookies, wire accessors use wire-name fields on both sides (shared with R02.2/R02.4), conversion templates are inverse pairs (R02.3); (R03.5) tag-pointer decisions keep the viewed-result guard; no stale per-iteration state in the response data builder; the client response decoder picks the codec of the announced Content-Type (shared with C15/R15.1); (R03.6) the response encoder guards a field only against nil, never against a zero value. NOT decided: equality of the result received with the result sent (needs execution), streaming order, default injection."
+const explanationC03 = "Decides structural necessary conditions of C03 (response side): (R03.1) in the response encoder template each response arm writes the status code of its own range element after its headers and before the body, tagged arms compare the tag field with that element's tag value, and the client decoder's case labels come from the same field; the DSL gives a response its default status before the response DSL runs so that an explicit Code() is kept; (R03.2) errors captured by the attribute walkers of the transform generators are tested after each walk; (R03.3) the status vocabulary — every expr.Status* constant has the value of the like-named net/http constant; (R03.4) the response body is the result minus headers and cookies, wire accessors use wire-name fields on both sides (shared with R02.2/R02.4), conversion templates are inverse pairs (R02.3); (R03.5) tag-pointer decisions keep the viewed-result guard; no stale per-iteration state in the response data builder; the client response decoder picks the codec of the announced Content-Type (shared with C15/R15.1); (R03.6) the response encoder guards a field only against nil, never against a zero value. shared R17.5 (the pattern cache is keyed by the pattern: a result is validated against its own pattern). NOT decided: equality of the result received with the result sent (needs execution), streaming order, default injection."
 
 func runC02(c *an.Ctx) string {
 	r021NameTables(c)
@@ -51,6 +51,7 @@ func runC03(c *an.Ctx) string {
 	r15ResponseEncoder(c) // shared with C15 (rule ids R15.1-R15.3): the server encodes with the codec of the type it announces
 	tplRangeIndexRule(c, "R03.5", "http/codegen/templates")
 	encoderNilGuards(c, "R03.6", "http/codegen/templates/response_encoder.go.tpl", "http/codegen/templates/partial/response.go.tpl")
+	r175PatternCache(c) // shared with C17 (rule id R17.5): the client validates results with the pattern it was given, not with one cached under another key
 	return explanationC03
 }
 
@@ -260,45 +261,56 @@ func r022BodyPartition(c *an.Ctx, rule, fn string, fields [][]string) {
 		return
 	}
 	info := f.Pkg.TypesInfo
+	group := c.WithNewHelpers(f) // the function and the helpers extracted from it (same package)
 	// local aliases: x = <...>.Field
 	alias := map[types.Object]string{}
-	ast.Inspect(f.Decl.Body, func(n ast.Node) bool {
-		switch s := n.(type) {
-		case *ast.AssignStmt:
-			for i, l := range s.Lhs {
-				if i < len(s.Rhs) {
-					if fv := an.FieldOf(info, starArg(s.Rhs[i])); fv != nil {
-						if o := an.ObjOf(info, l); o != nil {
-							alias[o] = fv.Name()
+	removed := map[string]int{}
+	for _, g := range group {
+		if g.Pkg != f.Pkg {
+			continue
+		}
+		ast.Inspect(g.Decl.Body, func(n ast.Node) bool {
+			switch s := n.(type) {
+			case *ast.AssignStmt:
+				for i, l := range s.Lhs {
+					if i < len(s.Rhs) {
+						if fv := an.FieldOf(info, starArg(s.Rhs[i])); fv != nil {
+							if o := an.ObjOf(info, l); o != nil {
+								alias[o] = fv.Name()
+							}
+						}
+					}
+				}
+			case *ast.ValueSpec:
+				for i, nm := range s.Names {
+					if i < len(s.Values) {
+						if fv := an.FieldOf(info, starArg(s.Values[i])); fv != nil {
+							alias[info.Defs[nm]] = fv.Name()
 						}
 					}
 				}
 			}
-		case *ast.ValueSpec:
-			for i, nm := range s.Names {
-				if i < len(s.Values) {
-					if fv := an.FieldOf(info, starArg(s.Values[i])); fv != nil {
-						alias[info.Defs[nm]] = fv.Name()
-					}
-				}
-			}
-		}
-		return true
-	})
-	removed := map[string]int{}
-	for _, call := range an.AllCallsIn(f.Decl.Body) {
-		name := an.CalleeName(info, call)
-		if name != an.P("expr")+".removeAttributes" && name != an.P("expr")+".removeAttribute" || len(call.Args) != 2 {
+			return true
+		})
+	}
+	for _, g := range group {
+		if g.Pkg != f.Pkg {
 			continue
 		}
-		arg := starArg(call.Args[1])
-		if fv := an.FieldOf(info, arg); fv != nil {
-			removed[fv.Name()]++
-		} else if o := an.ObjOf(info, arg); o != nil {
-			if a, ok := alias[o]; ok {
-				removed[a]++
-			} else {
-				removed["var:"+o.Name()]++
+		for _, call := range an.AllCallsIn(g.Decl.Body) {
+			name := an.CalleeName(info, call)
+			if name != an.P("expr")+".removeAttributes" && name != an.P("expr")+".removeAttribute" || len(call.Args) != 2 {
+				continue
+			}
+			arg := starArg(call.Args[1])
+			if fv := an.FieldOf(info, arg); fv != nil {
+				removed[fv.Name()]++
+			} else if o := an.ObjOf(info, arg); o != nil {
+				if a, ok := alias[o]; ok {
+					removed[a]++
+				} else {
+					removed["var:"+o.Name()]++
+				}
 			}
 		}
 	}
@@ -309,7 +321,7 @@ func r022BodyPartition(c *an.Ctx, rule, fn string, fields [][]string) {
 	if fn == "httpRequestBody" {
 		// implicit header attributes: range over defaultRequestHeaderAttributes(a) feeding removeAttribute
 		ok := false
-		ast.Inspect(f.Decl.Body, func(n ast.Node) bool {
+		c.InspectAll(f, func(_ *an.Func, n ast.Node) bool {
 			rs, isR := n.(*ast.RangeStmt)
 			if !isR {
 				return true
@@ -493,26 +505,43 @@ func r031Status(c *an.Ctx) {
 	}
 	// response_encoder.go.tpl: tagged arms compare the tag with the element's TagValue
 	if et, err := c.TplFile("http/codegen/templates/response_encoder.go.tpl"); err == nil {
-		// inside `if .TagName`: every comparison reads the tag attribute (named by .TagName, directly or through
-		// a template variable) on its left and prints the response's own .TagValue on its right
+		// under a test of .TagName: every comparison reads the tag attribute (named by .TagName, directly or
+		// through a template variable defined anywhere before) on its left and prints the response's own
+		// .TagValue on its right
 		ok, comparisons := true, 0
+		all := an.TplLinear(et.Tree.Root) // the whole template: variable definitions and every token in order
+		has := func(fs []string, f string) bool {
+			for _, x := range fs {
+				if x == f {
+					return true
+				}
+			}
+			return false
+		}
 		an.WalkTpl(et.Tree.Root, func(n parse.Node) bool {
 			in, isIf := n.(*parse.IfNode)
-			if !isIf {
+			if !isIf || !has(an.TplFields(in.Pipe), ".TagName") {
 				return true
 			}
-			if fs := an.TplFields(in.Pipe); len(fs) != 1 || fs[0] != ".TagName" {
-				return true
-			}
-			toks := an.TplLinear(in.List)
-			has := func(fs []string, f string) bool {
-				for _, x := range fs {
-					if x == f {
-						return true
+			// the tokens of this arm, taken from the whole-template linearisation so that variables resolve
+			arm := an.TplLinear(in.List)
+			start := -1
+			for i := 0; i+len(arm) <= len(all) && start < 0; i++ {
+				match := true
+				for j := range arm {
+					if all[i+j].Text != arm[j].Text || all[i+j].Action != arm[j].Action {
+						match = false
+						break
 					}
 				}
-				return false
+				if match {
+					start = i
+				}
 			}
+			if start < 0 {
+				return true
+			}
+			toks := all[start : start+len(arm)]
 			for i, tk := range toks {
 				if tk.Action || !strings.Contains(tk.Text, "==") {
 					continue
@@ -548,16 +577,39 @@ func r031Status(c *an.Ctx) {
 		cases := regexp.MustCompile(`case \{\{\s*\.StatusCode\s*\}\}:`).FindAllString(dt.Src, -1)
 		c.Check(len(cases) >= 2 && strings.Contains(dt.Src, "switch resp.StatusCode"), rule, dt.Name+"#status-cases", 0, "the client dispatches on resp.StatusCode with labels from each response's StatusCode", "the client no longer switches on resp.StatusCode with {{ .StatusCode }} labels")
 	}
-	// dsl.Response: default status assigned before the response DSL runs
-	if f := c.MustFunc(rule, "dsl", "Response"); f != nil {
+	dslDefaultStatus(c, rule)
+}
+
+// dslDefaultStatus: see the comment inside.
+func dslDefaultStatus(c *an.Ctx, rule string) {
+	// default statuses are assigned before the response DSL runs: in no function of package dsl can a store into a
+	// StatusCode field follow the execution of the user's DSL function (eval.Execute), or a status set with Code()
+	// inside that function is overwritten by the default (Response: 200; HTTP errors: 400; gRPC likewise)
+	nStores := 0
+	for _, f := range c.AllFuncs("dsl") {
 		info := f.Pkg.TypesInfo
-		g := an.NewCFG(info, f.Decl.Body)
+		var g *an.CFG
 		var defaults, runs []an.Loc
+		hasStore := false
+		ast.Inspect(f.Decl.Body, func(n ast.Node) bool {
+			if as, ok := n.(*ast.AssignStmt); ok {
+				for _, l := range as.Lhs {
+					if fv := an.FieldOf(info, l); fv != nil && fv.Name() == "StatusCode" {
+						hasStore = true
+					}
+				}
+			}
+			return true
+		})
+		if !hasStore {
+			continue
+		}
+		g = an.NewCFG(info, f.Decl.Body)
 		for _, b := range g.Live() {
 			for i, n := range b.Nodes {
-				if as, ok := n.(*ast.AssignStmt); ok && len(as.Lhs) == 1 && len(as.Rhs) == 1 {
-					if fv := an.FieldOf(info, as.Lhs[0]); fv != nil && fv.Name() == "StatusCode" {
-						if o := an.ObjOf(info, selName(as.Rhs[0])); o != nil && o.Name() == "StatusOK" {
+				if as, ok := n.(*ast.AssignStmt); ok {
+					for _, l := range as.Lhs {
+						if fv := an.FieldOf(info, l); fv != nil && fv.Name() == "StatusCode" {
 							defaults = append(defaults, an.Loc{Block: b, Idx: i})
 						}
 					}
@@ -569,6 +621,7 @@ func r031Status(c *an.Ctx) {
 				}
 			}
 		}
+		nStores += len(defaults)
 		bad := false
 		for _, d := range defaults {
 			for _, r := range runs {
@@ -577,13 +630,9 @@ func r031Status(c *an.Ctx) {
 				}
 			}
 		}
-		// responseDSL helpers may carry the default instead of Response itself
-		if len(defaults) == 0 {
-			c.Okf(rule, f.Name+"#default-status", "Response delegates default-status handling (no assignment in this function)")
-		} else {
-			c.Check(!bad, rule, f.Name+"#default-status", f.Decl.Pos(), "the default status 200 is assigned before the response DSL runs, so an explicit Code() is kept", "the default status is assigned after the response DSL has run: a status set with Code() inside the DSL is overwritten with 200")
-		}
+		c.Check(!bad, rule, f.Name+"#default-status", f.Decl.Pos(), "no status is assigned after the response DSL has run, so an explicit Code() is kept", "a status is assigned after the response DSL has run: a status set with Code() inside the DSL function is overwritten")
 	}
+	c.Okf(rule, "dsl#default-status", "%d stores into StatusCode fields in package dsl, none after the user's DSL function ran", nStores)
 }
 
 func r032TransformErrors(c *an.Ctx) {
